@@ -14,17 +14,13 @@ Qed.
 Definition no_back (x : cout) : Prop :=
   match x with OAck _ _ k => if k =? A_BCAST then False else True | _ => True end.
 
-Definition bcast_pc (p : pc) (ch : chan) (payload : N) (o : oid) : Prop :=
-  (exists id', p = PStart (RBcast ch payload id')) \/ (exists id', p = PBcastGate ch payload id')
-  \/ (exists id', p = PBcastWait ch o payload id').
-
 (* a BROADCAST acknowledgement among the outputs [os] of a segment comes with the deliveries *)
 Definition back_ok (g : gst) (tc : option conn) (me : user) (p : pc) (os : list cout) (x : cout) : Prop :=
   match x with
   | OAck c _ k =>
       if k =? A_BCAST then
         tc = Some c /\ exists ch payload o, bcast_pc p ch payload o /\ In me (members (objs g o)) /\
-          forall u c', In u (members (objs g o)) -> In c' (reg g u) -> c' <> c -> In (OMsg c' ch me payload) os
+          forall u c', In u (targets (objs g o)) -> In c' (reg g u) -> c' <> c -> In (OMsg c' ch me payload) os
       else True
   | _ => True
   end.
@@ -42,6 +38,7 @@ Section Back.
   Proof.
     intro Hp. unfold bcast_read. cbv zeta. destruct (negb (mem me (members (objs g o)))) eqn:E; cbn [snd]; [outs idtac|].
     apply negb_false_iff in E. apply mem_In in E.
+    destruct (negb (allowed (pacl (objs g o)) me)); cbn [snd]; [outs idtac|].
     apply Forall_app. split; [outs idtac|]. destruct tc as [c|]; [|constructor]. constructor; [|constructor].
     cbn [back_ok]. change (A_BCAST =? A_BCAST) with true. cbv iota. split; [reflexivity|].
     exists ch, payload, o. split; [exact Hp|]. split; [exact E|]. intros u c' Hu Hc Hn.
@@ -64,21 +61,14 @@ Section Back.
   Proof.
     assert (nb : forall p' os l, Forall no_back l -> Forall (back_ok g tc me p' os) l)
       by (intros p' os l Hl; eapply Forall_impl; [intros x Hx; apply no_back_ok; exact Hx|exact Hl]).
-    destruct p as [[]| | | | | | | | |]; cbn [seg].
-    - apply nb. unfold join_start. repeat hd1; try apply nb_join_locked; outs idtac.
-    - apply nb. unf_steps. repeat hd1; outs ltac:(unfold events).
+    destruct p as [[]| | | | | | | | | | |]; cbn [seg];
+      try solve [apply nb; unfold join_start; repeat hd1;
+                 first [ apply nb_join_locked
+                       | unfold leave_start, leave_locked, leave_after_n1, leave_after_n2, leave_end, join_finish, members_read,
+                                set_acl_locked, get_acl_read; cbv beta iota zeta; repeat hd1; outs ltac:(unfold events) ]].
     - destruct (fwd_payload cf); [outs idtac|]. apply back_bcast_lookup. intros o0. left. eexists. reflexivity.
-    - apply nb. unf_steps. repeat hd1; outs ltac:(unfold events).
-    - apply nb. outs idtac.
-    - apply nb. hd1; [apply nb_join_locked|outs idtac].
-    - apply nb. unf_steps. repeat hd1; outs ltac:(unfold events).
-    - apply nb. unf_steps. repeat hd1; outs ltac:(unfold events).
-    - apply nb. unf_steps. repeat hd1; outs ltac:(unfold events).
-    - apply nb. unf_steps. repeat hd1; outs ltac:(unfold events).
     - destruct ok; [|outs idtac]. apply back_bcast_lookup. intros o0. right. left. eexists. reflexivity.
     - destruct (lock_free g o); [|outs idtac]. apply back_bcast_read. right. right. eexists. reflexivity.
-    - apply nb. unf_steps. repeat hd1; outs ltac:(unfold events).
-    - outs idtac.
   Qed.
 End Back.
 
@@ -90,16 +80,17 @@ Theorem conc_broadcast_complete cf es t ok hint c id :
   exists k ch payload o, In (t, k) (tasks s) /\ t_conn k = Some c /\
     ((exists id', t_pc k = PStart (RBcast ch payload id')) \/ (exists id', t_pc k = PBcastGate ch payload id') \/ (exists id', t_pc k = PBcastWait ch o payload id')) /\
     In (t_me k) (members (objs (cg s) o)) /\
-    forall u c', In u (members (objs (cg s) o)) -> In c' (reg (cg s) u) -> c' <> c ->
+    forall u c', In u (members (objs (cg s) o)) -> allowed (racl (objs (cg s) o)) u = true -> In c' (reg (cg s) u) -> c' <> c ->
       In (OMsg c' ch (t_me k) payload) (snd (cstep cf s (ERun t ok hint))).
 Proof.
-  intros s. unfold cstep. cbv zeta.
+  intros s. pose proof (conc_targets_cache cf es) as HT. cbv zeta in HT. fold s in HT. unfold cstep. cbv zeta.
   destruct (tlookup t (tasks s)) as [k|] eqn:Hk; [|intros []].
   pose proof (back_seg cf t (t_conn k) (t_me k) (cg s) (t_pc k) ok hint) as Hs.
   destruct (seg cf t (t_conn k) (t_me k) (cg s) (t_pc k) ok hint) as [[g' p] os]. cbn [snd] in *. intro H.
   rewrite Forall_forall in Hs. apply Hs in H. cbn [back_ok] in H. change (A_BCAST =? A_BCAST) with true in H. cbv iota in H.
   destruct H as (Hc & ch & payload & o & Hp & Hme & Hall).
-  exists k, ch, payload, o. split; [apply tlookup_In; exact Hk|]. split; [exact Hc|]. split; [exact Hp|]. split; [exact Hme|exact Hall].
+  exists k, ch, payload, o. split; [apply tlookup_In; exact Hk|]. split; [exact Hc|]. split; [exact Hp|]. split; [exact Hme|].
+  intros u c' Hu Ha. apply Hall. rewrite HT. apply filter_In. split; assumption.
 Qed.
 
 (* a known limitation: a session that signs in under a name whose previous session's clean-up is still in progress
